@@ -63,6 +63,13 @@ def family(tier):
         ("bin", "+", ("bin", "*", ("param", "p"), ("bin", "**", K.X, ("const", 2))), ("bin", "*", ("param", "q"), ("bin", "*", K.X, K.Y))),
         ("bin", "/", ("num", 1.0), ("vsum", v3)),
     ]
+    # nested constant powers (second derivatives pass through the power rule's own simplifications twice) and
+    # same-named Parameter objects: always part of the family, not left to the sample
+    XmY = ("bin", "-", K.X, K.Y)
+    for k1, k2 in ((2, 1.5), (2, 0.5), (2, 2.5), (3, 2), (2, -1), (4, 0.75)):
+        out.append(("bin", "**", ("bin", "**", XmY, ("const", k1)), ("const", k2)))
+        out.append(("bin", "+", ("bin", "**", ("bin", "**", K.X, ("const", k1)), ("const", k2)), ("bin", "*", K.X, K.Y)))
+    out += [("bin", "+", ("bin", "*", ("pdup", "p", 0), ("bin", "*", K.X, K.X)), ("bin", "*", ("pdup", "p", 1), ("bin", "*", K.X, K.Y)))]
     fam = [r for r in K.scalar_family("quick") if len(free_names(r)["vars"]) <= (4 if tier == "quick" else 5)]
     if tier == "quick":
         fam = random.Random(17).sample(fam, 220)
